@@ -1784,6 +1784,37 @@ def no_double_neg(c):
             return c
 
 
+def bool_match_conds(m, arm):
+    """`match (c1, c2, ..) { (true, _) => .., (false, true) => .., .. }` (or `match c { true => .., false => .. }`):
+    the conditions an arm stands for, as texts (`c1`, `!c2`); None when the match is not over boolean tests"""
+    sc = strip(m["e"])
+    exprs = sc["elems"] if sc.get("k") == "Tuple" else [sc]
+    if not all(strip(e).get("k") in ("Binary", "MethodCall", "Unary", "Paren", "Path", "Call") for e in exprs):
+        return None
+    out_alts = []
+    for p in flatten_or(arm["pat"]):
+        pats = p["elems"] if p.get("k") == "PTuple" else [p]
+        if len(pats) != len(exprs):
+            return None
+        cs = []
+        for e, q in zip(exprs, pats):
+            if q.get("k") == "PWild":
+                continue
+            if q.get("k") == "PLit" and str((q.get("lit") or {}).get("v")) in ("true", "false"):
+                tx = unparse(strip(e)).replace(" ", "")
+                if not (tx.startswith("(") and tx.endswith(")")):
+                    tx = "(" + tx + ")"
+                cs.append(tx if str(q["lit"]["v"]) == "true" else no_double_neg("!" + tx))
+            else:
+                return None
+        out_alts.append(cs)
+    if len(out_alts) != 1:
+        return None  # an or-pattern of boolean rows: a disjunction, not expressible as a conjunction
+    # rows above this arm that would have matched first are not subtracted: callers that need exclusivity look at
+    # the conditions themselves (a later row's conditions hold in addition to "no earlier row matched")
+    return out_alts[0]
+
+
 def enclosing_conds(root, target):
     """texts of the conditions under which `target` executes (if / else-of / match arm / while), outermost first"""
     found = []
@@ -1815,7 +1846,8 @@ def enclosing_conds(root, target):
             for a in n["arms"]:
                 rec(a.get("guard"), conds)
                 g = [t(strip(a["guard"]))] if a.get("guard") else []
-                rec(a["body"], conds + ["match %s:%s" % (t(n["e"]), t(a["pat"]))] + g)
+                bm = bool_match_conds(n, a)
+                rec(a["body"], conds + (bm if bm is not None else ["match %s:%s" % (t(n["e"]), t(a["pat"]))]) + g)
             return
         if k == "While":
             rec(n["cond"], conds)
